@@ -49,6 +49,10 @@ struct Resolver {
     errors: Vec<String>,
     /// Long names of base units, which stand for the base unit itself.
     long_names: BTreeMap<Id, Id>,
+    /// The definitions being visited, outermost first.
+    stack: Vec<Id>,
+    /// Definitions that are part of a dependency cycle.
+    cyclic: BTreeSet<Id>,
 }
 
 impl Resolver {
@@ -174,10 +178,14 @@ impl Resolver {
         if self.temp_marks.get(id).is_some() {
             self.errors
                 .push(format!("Unit {} has a dependency cycle", id));
+            if let Some(start) = self.stack.iter().position(|on_stack| on_stack == id) {
+                self.cyclic.extend(self.stack[start..].iter().cloned());
+            }
             return;
         }
         if self.unmarked.get(id).is_some() {
             self.temp_marks.insert(id.clone());
+            self.stack.push(id.clone());
             if let Some(v) = self.input.get(id).cloned() {
                 match *v {
                     Def::Prefix { ref expr, .. }
@@ -192,6 +200,7 @@ impl Resolver {
                     _ => (),
                 }
             }
+            self.stack.pop();
             self.unmarked.remove(id);
             self.temp_marks.remove(id);
             self.sorted.push(id.clone());
@@ -332,6 +341,8 @@ pub(crate) fn load_defs(ctx: &mut Context, defs: Defs) -> Vec<String> {
         categories: BTreeMap::new(),
         errors: Vec::new(),
         long_names: BTreeMap::new(),
+        stack: vec![],
+        cyclic: BTreeSet::new(),
     };
     let mut long_names = vec![];
     for DefEntry {
@@ -443,6 +454,12 @@ pub(crate) fn load_defs(ctx: &mut Context, defs: Defs) -> Vec<String> {
     let mut quantities = BTreeMap::new();
 
     for (id, def) in udefs {
+        // Already reported. In a context that has the name from an
+        // earlier load, the definition would evaluate and then stand
+        // for itself.
+        if resolver.cyclic.contains(&id) {
+            continue;
+        }
         let name = id.name.to_string();
         match *def {
             Def::BaseUnit { ref long_name } => {
